@@ -25,13 +25,15 @@ CELL = GRAIN * 512
 NAMES = {"plain": "disk-s{:03d}.vmdk", "spaces": 'win "C" drive (copy 2) - s{:03d}.vmdk', "unicode": "dïsk-✓-😀 s{:03d}.vmdk"}
 
 
-def _extent_file(e, i, rng, cell=CELL, grain=GRAIN):
+def _extent_file(e, i, rng, cell=CELL, grain=GRAIN, slack_ok=False):
     """-> (VirtualFile, host: cell -> file byte offset)"""
     n = e["n"]
     zero = set(e["zero"])
     t = e["type"]
     if t in ("FLAT", "VMFS", "PLAIN"):
-        vf = VirtualFile(n * cell, [(0, n * cell, "pat", i)], fid=i)
+        # the backing file may be longer than the range the descriptor declares (pre-allocated / shared files)
+        slack = rng.choice([0, 0, 512, cell, 3 * cell + 512]) if (t != "PLAIN" and slack_ok) else 0
+        vf = VirtualFile(n * cell + slack, [(0, n * cell + slack, "pat", i)], fid=i)
         return vf, {c: c * cell for c in range(n)}
     pos = list(range(1, n + 2))
     rng.shuffle(pos)
@@ -70,7 +72,7 @@ def realise_descriptor(exts, rng, work):
     d = tempfile.mkdtemp(prefix="c10-", dir=work)
     lines, hosts = [], []
     for i, e in enumerate(exts):
-        vf, host = _extent_file(e, i, rng)
+        vf, host = _extent_file(e, i, rng, slack_ok=True)   # the descriptor declares the range; the file may be longer
         name = NAMES[e["name"]].format(i + 1)
         if e["type"] in ("FLAT", "VMFS"):
             name = name.replace(".vmdk", "-flat.vmdk")
@@ -161,7 +163,9 @@ def direction_A(ctx, sts, mode):
 
 
 WORDS = ["disk", "win", "C", "drive", "0", "42", "7", "copy", "(2)", "dïsk", "✓", "😀", "s001", "RW", "FLAT", "#", "=", "'", "a.b", "x"]
-SEPS = [" ", " ", '" ', ' "', '"', '" "', "-", " - ", "  ", "_", "\t"]
+SEPS = [" ", " ", '" ', ' "', '"', '" "', "-", " - ", "  ", "_", "\t",
+        # characters some line-splitting helpers treat as line boundaries (str.splitlines): VT, FF, FS, GS, RS, NEL, LS, PS
+        "\x0b", "\x0c", "\x1c", "\x1d", "\x1e", "\x85", "\u2028", "\u2029", "\r"]
 
 
 def random_name(rng, i):
@@ -197,7 +201,8 @@ def make_trace(tid, rng, nops=30):
         etype = {"flat": rng.choice(["FLAT", "VMFS"]), "hosted": "SPARSE", "se": "SESPARSE", "cowd": "VMFSSPARSE"}[kind]
         lines.append(f'{rng.choice(["RW", "RDONLY", "NOACCESS"])} {n * grain} {etype} "{names[-1]}"{" 0" if etype == "FLAT" else ""}')
         if kind == "flat":
-            vf = VirtualFile(n * gbytes, [(0, n * gbytes, "pat", i)], fid=i)
+            slack = rng.choice([0, 0, 512, gbytes, 5 * gbytes + 1024]) if via == "descriptor" else 0   # longer than declared
+            vf = VirtualFile(n * gbytes + slack, [(0, n * gbytes + slack, "pat", i)], fid=i)
             exts.append({"fmt": "flat", "start": start, "n": n, "img": {}})
             bases.append(0)
         else:
